@@ -1,12 +1,110 @@
 """E-sched: stateless enumeration of two-thread schedules of the real library under a cooperative scheduler.
 
 Exactly one thread runs at any time (baton = one semaphore per thread).  Scheduling points are trace events inside the
-library's source files: 'call' (function granularity), 'line', or 'opcode'.  A schedule is (start thread, list of
+library's source files: 'call' (function granularity), 'line', 'opcode', or 'shared' (the bytecode instructions that
+access module-level mutable state or names rebound with `global` - see shared_offsets).  A schedule is (start thread, list of
 preemption points); a preemption point is the local step number at which the running thread hands the baton to the
 other one.  All schedules with at most p preemptions are enumerated (iterative context bounding); every execution runs
 to completion.  Replaying a schedule must give identical observations and step counts (divergence = hard error)."""
+import dis
+import functools
+import re
 import sys
 import threading
+import types
+
+_IMMUTABLE = (types.FunctionType, types.BuiltinFunctionType, types.MethodDescriptorType, type, types.ModuleType, int, float, complex, str, bytes, bool,
+              type(None), frozenset, re.Pattern, functools.partial, range, type(Ellipsis), type(NotImplemented))
+_DECLARED = {}
+_SHARED = {}
+
+
+def _mutable(v, depth=0):
+    if isinstance(v, tuple):
+        return depth > 3 or any(_mutable(x, depth + 1) for x in v)
+    return not isinstance(v, _IMMUTABLE)
+
+
+def _codes(obj, seen):
+    """all code objects reachable from a module-level value (functions, classes, nested functions)"""
+    if isinstance(obj, (staticmethod, classmethod)):
+        obj = obj.__func__
+    if isinstance(obj, property):
+        for f in (obj.fget, obj.fset, obj.fdel):
+            if f is not None:
+                yield from _codes(f, seen)
+        return
+    if isinstance(obj, functools.partial):
+        obj = obj.func
+    obj = getattr(obj, '__wrapped__', obj)
+    if isinstance(obj, types.FunctionType):
+        obj = obj.__code__
+    if isinstance(obj, types.CodeType):
+        if id(obj) in seen:
+            return
+        seen.add(id(obj))
+        yield obj
+        for c in obj.co_consts:
+            if isinstance(c, types.CodeType):
+                yield from _codes(c, seen)
+    elif isinstance(obj, type):
+        if id(obj) in seen:
+            return
+        seen.add(id(obj))
+        for v in vars(obj).values():
+            yield from _codes(v, seen)
+
+
+def declared_globals(modname):
+    """names some function of the module rebinds with a `global` statement"""
+    if modname not in _DECLARED:
+        names = set()
+        mod = sys.modules.get(modname)
+        seen = set()
+        for v in list(vars(mod).values()) if mod is not None else ():
+            if getattr(v, '__module__', modname) != modname and not isinstance(v, types.CodeType):
+                continue
+            for code in _codes(v, seen):
+                for ins in dis.get_instructions(code):
+                    if ins.opname in ('STORE_GLOBAL', 'DELETE_GLOBAL'):
+                        names.add(ins.argval)
+        _DECLARED[modname] = names
+    return _DECLARED[modname]
+
+
+def shared_offsets(code, globs):
+    """instruction offsets of `code` that access state shared between threads: module-level names that are rebound somewhere with
+    `global`, module-level mutable objects (dict, list, set, instances), the same reached as attributes of an imported module"""
+    key = id(code)
+    hit = _SHARED.get(key)
+    if hit is not None and hit[0] is code:
+        return hit[1]
+    modname = globs.get('__name__', '')
+    declared = declared_globals(modname)
+    out = set()
+    ins = list(dis.get_instructions(code))
+    for i, x in enumerate(ins):
+        if x.opname in ('STORE_GLOBAL', 'DELETE_GLOBAL'):
+            out.add(x.offset)
+        elif x.opname == 'LOAD_GLOBAL':
+            name = x.argval
+            if name in declared:
+                out.add(x.offset)
+                continue
+            if name not in globs:
+                continue                               # builtin
+            val = globs[name]
+            if isinstance(val, types.ModuleType):
+                j = i + 1
+                if j < len(ins) and ins[j].opname in ('LOAD_ATTR', 'LOAD_METHOD', 'STORE_ATTR', 'DELETE_ATTR'):
+                    attr = ins[j].argval
+                    if ins[j].opname in ('STORE_ATTR', 'DELETE_ATTR') or attr in declared_globals(val.__name__) or _mutable(getattr(val, attr, None)):
+                        out.add(ins[j].offset)
+            elif _mutable(val):
+                out.add(x.offset)
+    res = frozenset(out)
+    _SHARED[key] = (code, res)
+    return res
 
 
 class Deadlock(Exception):
@@ -15,6 +113,23 @@ class Deadlock(Exception):
 
 class Divergence(Exception):
     pass
+
+
+def _warm_opcode_tracing():
+    """CPython 3.12 delivers no 'opcode' events to the first thread that asks for them in a process (the instruction events are
+    switched on interpreter-wide only after the first request); asking once on the calling thread makes both worker threads equal."""
+    def tr(frame, event, arg):
+        frame.f_trace_opcodes = True
+        return tr
+
+    def dummy():
+        return 1 + 1
+    old = sys.gettrace()
+    sys.settrace(tr)
+    try:
+        dummy()
+    finally:
+        sys.settrace(old)
 
 
 class Execution:
@@ -60,9 +175,22 @@ class Execution:
                 point(tid)
             return local
 
+        def local_shared(frame, event, arg):
+            if event == 'opcode' and frame.f_lasti in shared_offsets(frame.f_code, frame.f_globals):
+                point(tid)
+            return local_shared
+
         def glob(frame, event, arg):
             if not frame.f_code.co_filename.startswith(libdir):
                 return None
+            if gran == 'shared':
+                # partial-order reduction: a context switch matters only immediately before an access to state that both threads can
+                # reach; frames without such an access run untraced
+                if not shared_offsets(frame.f_code, frame.f_globals):
+                    return None
+                frame.f_trace_opcodes = True
+                frame.f_trace_lines = False
+                return local_shared
             if gran == 'call':
                 point(tid)
                 return None
@@ -92,6 +220,8 @@ class Execution:
                 self.main.release()
 
     def run(self):
+        if self.gran in ('opcode', 'shared'):
+            _warm_opcode_tracing()
         ths = [threading.Thread(target=self._run, args=(i,), daemon=True) for i in range(2)]
         for t in ths:
             t.start()
